@@ -277,11 +277,7 @@ def c14Step (s : St) (line : String) : St × String :=
         (s, showHRes (clientView st.msg st.hdrEnd) wk)
       | _, _ => (s, "none")
     | none => (s, "bad-op")
-  | ["end"] =>
-    -- a request whose stream the Transport never ends (see `Req.neverEnds`) is a known defect of
-    -- the code as it is: the exchange cannot complete
-    if !s.early && s.reqs.any Req.neverEnds then (s, "finding nil-body-with-trailers-never-ends")
-    else (s, "ok")
+  | ["end"] => (s, "ok")
   | _ => (s, "bad-op")
 
 end NetVerif.Driver.C14
